@@ -723,6 +723,17 @@ func (m *m09) Apply(op op09) error {
 			} else {
 				msg = &v1.MsgMintToken{Coin: sdk.Coin{Denom: op.MinUnit, Amount: gen.ToInt(gen.BigOf(op.Amount))}, Receiver: recv, Owner: who}
 			}
+			// the mint fee is charged before the cap is looked at: when the fee is quoted in the minted token itself,
+			// its burned share has already left the circulating amount
+			supplyAtCheck := new(big.Int)
+			if tk != nil {
+				supplyAtCheck.Set(tk.supply)
+				if m.feeTok() == tk {
+					f := m.mintFeeMin(tk.symbol)
+					supplyAtCheck.Sub(supplyAtCheck, new(big.Int).Sub(f, m.taxOf(f)))
+					m.cls["mint-of-the-fee-token"] = true
+				}
+			}
 			switch {
 			case !wellFormed || tk == nil:
 				v = mustReject("C09/invalid-mint-accepted", "malformed mint or unknown token")
@@ -732,9 +743,9 @@ func (m *m09) Apply(op op09) error {
 			case !tk.mintable:
 				v = mustReject("C09/non-mintable-minted", "token is not mintable")
 				m.cls["non-mintable-mint-attempt"] = true
-			case new(big.Int).Add(tk.supply, amount).Cmp(tk.cap()) > 0:
+			case new(big.Int).Add(supplyAtCheck, amount).Cmp(tk.cap()) > 0:
 				v = mustReject("C09/mint-over-cap", "mint would exceed the maximum supply")
-				if new(big.Int).Add(tk.supply, amount).Cmp(new(big.Int).Add(tk.cap(), big.NewInt(1))) == 0 {
+				if new(big.Int).Add(supplyAtCheck, amount).Cmp(new(big.Int).Add(tk.cap(), big.NewInt(1))) == 0 {
 					m.cls["mint-one-over-cap"] = true
 				}
 			case to.Equals(c09Collector):
@@ -753,10 +764,10 @@ func (m *m09) Apply(op op09) error {
 				}
 				commit = func() {
 					tk.supply = new(big.Int).Add(tk.supply, amount)
+					m.feePaid(fee)
 					if tk.supply.Cmp(tk.cap()) == 0 {
 						m.cls["mint-to-exact-cap"] = true
 					}
-					m.feePaid(fee)
 					if op.Legacy {
 						m.cls["legacy-mint"] = true
 					}
